@@ -32,6 +32,7 @@ type lexCase struct {
 	Seed   int64             `json:"seed"`
 	M      int               `json:"m"`
 	Prefix string            `json:"prefix"` // "", "obj" (the document is `{"x..":` + tail), "arr"
+	Gaps   []int             `json:"gaps"`
 }
 
 type lexBad struct {
@@ -249,7 +250,9 @@ func lexHandle(in []byte) []byte {
 	seen := map[string]bool{}
 	for k := 0; k < c.M; k++ {
 		r := rand.New(rand.NewSource(c.Seed*1000003 + int64(c.ID)*131 + int64(k)))
-		b, _ := conc.Concrete(c.S, lexVariants(&c, k, r), r)
+		plan := lexVariants(&c, k, r)
+		plan.Gaps = c.Gaps
+		b, _ := conc.Concrete(c.S, plan, r)
 		if seen[string(b)] {
 			continue
 		}
@@ -397,6 +400,9 @@ func lexMain(args []string) int {
 			c := lexCase{ID: n, V: tlaval.Str(st["v"]), Seed: *seed, M: *m, Prefix: *prefix}
 			for _, x := range tlaval.Seq(st["s"]) {
 				c.S = append(c.S, tlaval.Str(x))
+			}
+			for _, g := range tlaval.Seq(st["gaps"]) {
+				c.Gaps = append(c.Gaps, tlaval.Int(g))
 			}
 			ms := tlaval.Rec(st["ms"])
 			c.Sig = map[string]string{"st": tlaval.Str(ms["st"]), "exp": tlaval.Str(ms["exp"]), "lx": tlaval.Str(ms["lx"]),
